@@ -56,6 +56,21 @@ pub fn exec(op: &str, args: &[&str]) -> String {
             let rb: BigDecimalRef = (&i).into();
             f.push(show(&rb.to_owned()));
             f.push(format!("{}", d.digits()));
+            // derived reference views (no digit cloning): abs, neg and their compositions must agree with the
+            // owned operations on every accessor and compare equal to the owned result's view
+            {
+                use std::ops::Neg;
+                let views: [(BigDecimalRef, BigDecimal); 4] = [
+                    (r.abs(), d.abs()),
+                    (r.neg(), d.clone().neg()),
+                    (r.neg().abs(), d.abs()),
+                    (r.abs().neg(), d.abs().neg()),
+                ];
+                for (v, o) in views.iter() {
+                    f.push(format!("{},{},{},{},{},{}{}", sign_name(v.sign()), v.fractional_digit_count(), v.count_digits(),
+                        v.is_zero() as u8, show(&v.to_owned()), (*v == o.to_ref()) as u8, (o.to_ref() == *v) as u8));
+                }
+            }
             f.join("|")
         }
         "normalized" => show(&parse_dec(args[0]).expect("a").normalized()),
